@@ -37,10 +37,18 @@ type c19Case struct {
 	// ViaDefaults starts a dedicated directory whose users / anonymous setting
 	// come from WithDefaults instead of the Set* methods.
 	ViaDefaults bool `json:"via_defaults"`
+	// Churn: before the judged binds, SetUsers is called Churn times alternating between an older variant of
+	// the user set (other passwords, one user fewer) and the final one WHILE ChurnBinders clients bind in a loop;
+	// those binds are not judged (either set may answer them). The judged binds start when nothing is in flight.
+	Churn        int `json:"churn,omitempty"`
+	ChurnBinders int `json:"churn_binders,omitempty"`
 }
 
 var c19DNs = []string{"cn=a", "cn=a,dc=x", "cn=ab", "CN=A", "cn=b", "cn=a ", "", "cn=a,dc=x,dc=y", "dc=x", "cn=a\x00"}
-var c19PWs = []string{"pw1", "pw2", "", "PW1", "pw", "pw11", " ", "pw1 "}
+var c19Long = strings.Repeat("0123456789abcdef", 4) + "-tail-" // 70 bytes: longer than any fixed 64-byte buffer
+
+var c19PWs = []string{"pw1", "pw2", "", "PW1", "pw", "pw11", " ", "pw1 ", "pw1\x00", "\x00", "pw1\x00\x00x",
+	c19Long, c19Long[:64], c19Long[:69] + "X", c19Long + "x", c19Long[:63]}
 
 // c19Model is the three-line reference predicate of the statement.
 func c19Model(c c19Case, b c19Bind) bool {
@@ -135,6 +143,64 @@ func c19Exec(c c19Case, st *lab.Stats) *lab.Fail {
 			return nil
 		}
 		_ = i
+	}
+	if c.Churn > 0 && !c.ViaDefaults {
+		if h, ok := handles["plain"]; ok {
+			st.Class("setusers-churn")
+			final := c19Entries(c)
+			older := c
+			older.Users = nil
+			for i, u := range c.Users {
+				if i == 0 {
+					continue // the older set lacks the first user
+				}
+				v := u
+				v.Pws = nil
+				for _, p := range u.Pws {
+					v.Pws = append(v.Pws, "old-"+p)
+				}
+				older.Users = append(older.Users, v)
+			}
+			old := c19Entries(older)
+			stop := make(chan struct{})
+			var cw sync.WaitGroup
+			for b := 0; b < c.ChurnBinders; b++ {
+				cw.Add(1)
+				go func(b int) {
+					defer cw.Done()
+					for k := 0; ; k++ {
+						select {
+						case <-stop:
+							return
+						default:
+						}
+						cl, err := lab.Dial(h.addr())
+						if err != nil {
+							return
+						}
+						dn, pw := "cn=nobody", "x"
+						if len(c.Users) > 0 {
+							u := c.Users[(b+k)%len(c.Users)]
+							dn = u.DN
+							if len(u.Pws) > 0 {
+								pw = u.Pws[0]
+							}
+						}
+						_ = cl.Send(ReqSpec{Req: wire.Req{Kind: "bind", MsgID: 3, Version: 3, DN: []byte(dn), Password: []byte(pw)}}.Bytes())
+						_, _ = cl.Next(5 * time.Second)
+						cl.Abort()
+					}
+				}(b)
+			}
+			for k := 0; k < c.Churn; k++ {
+				h.D.SetUsers(old...)
+				time.Sleep(time.Duration(k%3) * 100 * time.Microsecond)
+				h.D.SetUsers(final...)
+				time.Sleep(time.Duration((k+1)%3) * 100 * time.Microsecond)
+			}
+			close(stop)
+			cw.Wait()
+		}
 	}
 	for i, b := range c.Binds {
 		wgb.Add(1)
@@ -258,11 +324,15 @@ func genC19(viaDefaults bool) func(t *rapid.T) c19Case {
 			}
 			c.Binds = append(c.Binds, b)
 		}
+		if !viaDefaults && rapid.IntRange(0, 3).Draw(t, "churn") == 0 {
+			c.Churn = rapid.IntRange(1, 8).Draw(t, "nchurn")
+			c.ChurnBinders = rapid.SampledFrom([]int{1, 2, 4, 8}).Draw(t, "binders")
+		}
 		return c
 	}
 }
 
-const c19Rule = "user sets of 0..6 entries over a DN pool with prefixes / extensions / case variants / duplicates, password attribute missing, [], [\"\"], one or several values, both anonymous-bind settings (SetAllowAnonymousBind; part defaults: WithDefaults at Start), bind DNs and passwords from the pool, variants of user DNs, empty and random, over plain / TLS / StartTLS with go-ldap SimpleBind(AllowEmptyPassword) and the raw independent client, the 1..8 binds of a case running at the same time on their own connections; oracle = success iff (pw empty and anonymous allowed) or exists user with DN == bind DN and first password value == pw, else invalidCredentials; non-trivial = bind DN is a prefix/extension/case variant of a user DN, or password equals a non-first value, or is empty; distinct by hash of (users, anon, dn, pw)"
+const c19Rule = "user sets of 0..6 entries over a DN pool with prefixes / extensions / case variants / duplicates, password attribute missing, [], [\"\"], one or several values, both anonymous-bind settings (SetAllowAnonymousBind; part defaults: WithDefaults at Start), bind DNs and passwords from the pool (including passwords with trailing NUL bytes and 63..71-byte passwords that differ only after byte 64), variants of user DNs, empty and random; one case in four first calls SetUsers 2..16 times, alternating an older variant of the user set with the final one, while 1..8 clients bind in a loop (not judged), and judges its binds only when nothing is in flight any more; over plain / TLS / StartTLS with go-ldap SimpleBind(AllowEmptyPassword) and the raw independent client, the 1..8 binds of a case running at the same time on their own connections; oracle = success iff (pw empty and anonymous allowed) or exists user with DN == bind DN and first password value == pw, else invalidCredentials; non-trivial = bind DN is a prefix/extension/case variant of a user DN, or password equals a non-first value, or is empty; distinct by hash of (users, anon, dn, pw)"
 
 func TestC19(t *testing.T) {
 	lab.Prop[c19Case]{ID: "C19", Part: "set", Rule: "rapid: " + c19Rule, Gen: genC19(false), Exec: c19Exec}.Run(t)
